@@ -29,7 +29,7 @@ class Check(CheckBase):
     title = "reported peak T3 rate"
     bounds = {"quick": {"rate/accel/jerk": "symbolic in [-2^31, 2^31]", "T": "each of %s, the quantifier over ticks k = 1..T unrolled" % QUICK_T,
                         "binary64": "|jerk|*T^2 < 2^40 and |accel|*T < 2^40 (as in C02: every float intermediate of rate_t3 is then exact)"},
-              "thorough": {"rate/accel/jerk": "as quick", "T": "each of 1..40 and %s, unrolled" % THOROUGH_T[40:], "binary64": "as quick"}}
+              "thorough": {"rate/accel/jerk": "as quick", "T": "each of 1..40 and %s, unrolled; T = 1024 and 2048 with the turning point confined to 9 ticks at the start, middle or end of the move" % THOROUGH_T[40:], "binary64": "as quick"}}
     outside = ["T above the bound (symbolic T left z3 without an answer on the vertex-right case in the design probes)",
                "float rounding of t_mid itself: it can move ceil() by one tick only when t_mid is within 2^-52 relative of an integer, where the "
                "neighbouring tick differs by |jerk|/2 (paper argument)", "non-integer arguments"]
@@ -45,6 +45,13 @@ class Check(CheckBase):
         # the same move parameters after an earlier call with a different duration (no state may survive between calls)
         for t, t0 in ((2, 12), (12, 3), (32, 2)) if tier == "quick" else ((2, 12), (3, 20), (12, 3), (20, 2), (32, 2), (64, 4)):
             cs.append({"label": "T%d/after-T%d" % (t, t0), "T": t, "prior_T": t0, "split_depth": 5})
+        # long moves: T in the thousands with the turning point of the rate parabola confined to a window of 9 ticks at the
+        # start, the middle or the end of the move (an assumption on accel/jerk, linear once the sign of jerk is fixed), so the
+        # fork over the evaluated tick stays small while the quantifier over all T ticks is still unrolled in the oracle
+        # (thorough tier only: an obligation over 2048 ticks takes about 20 s)
+        for t in (() if tier == "quick" else (1024, 2048)):
+            for name, lo in (("start", 2), ("mid", t // 2 - 4), ("end", t - 10)):
+                cs.append({"label": "T%d/vertex@%s" % (t, name), "T": t, "window": (lo, lo + 8), "split_depth": 4})
         return cs
 
     def config(self, tier, case):
@@ -62,6 +69,11 @@ class Check(CheckBase):
         jerk = run.int("jerk", -RMAX, RMAX)
         run.assume(zabs(jerk.t) * T * T < (1 << 40))
         run.assume(zabs(accel.t) * T < (1 << 40))
+        if case.get("window"):
+            lo, hi = case["window"]          # lo <= 1/2 - accel/jerk <= hi
+            a2, j = 2 * accel.t, jerk.t
+            run.assume(z3.Or(z3.And(j > 0, (1 - 2 * hi) * j <= a2, a2 <= (1 - 2 * lo) * j),
+                             z3.And(j < 0, (1 - 2 * hi) * j >= a2, a2 >= (1 - 2 * lo) * j)))
         ticks = []
         real_rate = ec.rate_t3
 
